@@ -164,6 +164,7 @@ Record wf_base (b : url) : Prop := {
   wb_host_ne : u_host b <> [];
   wb_host_lower : lower (u_host b) = u_host b;
   wb_auth_chars : forallb (not_in [SL; QM; HASH]) (authority_text b) = true;
+  wb_auth_lower : lower_host (authority_text b) = authority_text b;    (* host part lower case *)
   wb_rooted : exists segs, u_path b = [] :: segs;
   wb_segs : Forall seg_ok (u_path b);
   wb_query : Forall kv_ok (u_query b);
@@ -334,6 +335,7 @@ Proof.
   - exact (wb_host_ne b Wb).
   - exact (wb_host_lower b Wb).
   - exact (wb_auth_chars b Wb).
+  - exact (wb_auth_lower b Wb).
   - apply resolve_stays_rooted.
   - apply resolve_incl; [exact seg_ok_nil|]. constructor; [exact seg_ok_nil|].
     apply nav_segs_ok; [exact Hsegs | exact (wr_segs r Wr)].
@@ -421,22 +423,33 @@ Qed.
 Lemma canon_recompose u : wf_uri u -> canon (recompose u) = recompose (root_if_empty u).
 Proof. intro W. unfold canon. rewrite (parse_recompose u W). reflexivity. Qed.
 
-Theorem navigate_refines_rfc b r : wf_base b -> wf_ref r ->
-  spec_navigate (to_text b) (to_text r) (to_text (navigate_rel b r)) = true.
+Lemma strict_implies base ref result :
+  spec_navigate_strict base ref result = true -> spec_navigate base ref result = true.
+Proof.
+  unfold spec_navigate_strict, spec_navigate. destruct (target base ref); [|discriminate].
+  intro H. apply str_eqb_eq in H. rewrite H. apply str_eqb_refl.
+Qed.
+
+Theorem navigate_refines_rfc_strict b r : wf_base b -> wf_ref r ->
+  spec_navigate_strict (to_text b) (to_text r) (to_text (navigate_rel b r)) = true.
 Proof.
   intros Wb Wr. pose proof (navigate_rel_wf b r Wb Wr) as Wn.
   destruct (base_facts b Wb) as (_ & _ & _ & _ & Tb & Ub).
   destruct (base_facts _ Wn) as (_ & _ & _ & _ & Tn & Un).
   destruct (ref_facts r Wr) as (_ & Tr & Ur).
-  unfold spec_navigate, target. rewrite Tb, Tr, Tn.
+  unfold spec_navigate_strict, target. rewrite Tb, Tr, Tn.
   rewrite (parse_recompose _ Ub), (parse_recompose _ Ur), (nav_transform b r Wb Wr).
   rewrite (canon_recompose _ Un). apply str_eqb_refl.
 Qed.
 
+Theorem navigate_refines_rfc b r : wf_base b -> wf_ref r ->
+  spec_navigate (to_text b) (to_text r) (to_text (navigate_rel b r)) = true.
+Proof. intros Wb Wr. apply strict_implies, navigate_refines_rfc_strict; assumption. Qed.
+
 Corollary navigate_target b r : wf_base b -> wf_ref r ->
   target (to_text b) (to_text r) = Some (canon (to_text (navigate_rel b r))).
 Proof.
-  intros Wb Wr. pose proof (navigate_refines_rfc b r Wb Wr) as H. unfold spec_navigate in H.
+  intros Wb Wr. pose proof (navigate_refines_rfc_strict b r Wb Wr) as H. unfold spec_navigate_strict in H.
   destruct (target (to_text b) (to_text r)) as [t|]; [|discriminate].
   apply str_eqb_eq in H. congruence.
 Qed.
@@ -482,6 +495,7 @@ Proof.
   - exact (wb_host_ne d W).
   - reflexivity.
   - exact (wb_auth_chars d W).
+  - exact (wb_auth_lower d W).
   - rewrite Hp. apply resolve_stays_rooted.
   - apply resolve_incl; [exact seg_ok_nil | exact (wb_segs d W)].
   - exact (wb_query d W).
@@ -499,14 +513,14 @@ Proof.
   rewrite Hp in Hp'. rewrite Hp', join_rooted. reflexivity.
 Qed.
 
-Theorem navigate_abs_refines_rfc b d : wf_base b -> wf_base d ->
-  spec_navigate (to_text b) (to_text d) (to_text (normalize d)) = true.
+Theorem navigate_abs_refines_rfc_strict b d : wf_base b -> wf_base d ->
+  spec_navigate_strict (to_text b) (to_text d) (to_text (normalize d)) = true.
 Proof.
   intros Wb Wd. pose proof (normalize_wf d Wd) as Wn.
   destruct (base_facts b Wb) as (_ & _ & _ & _ & Tb & Ub).
   destruct (base_facts d Wd) as (segs & Hp & Hsegs & Hud & Td & Ud).
   destruct (base_facts _ Wn) as (_ & _ & _ & _ & Tn & Un).
-  unfold spec_navigate, target. rewrite Tb, Td, Tn.
+  unfold spec_navigate_strict, target. rewrite Tb, Td, Tn.
   rewrite (parse_recompose _ Ub), (parse_recompose _ Ud), (canon_recompose _ Un).
   rewrite (normalize_uri d segs Wd Hp), Hud.
   unfold transform, transform_gen. cbn [scheme authority path query fragment].
@@ -522,13 +536,17 @@ Qed.
 Lemma wf_ref_relative r : wf_ref r -> is_absolute_dest r = false.
 Proof. intro W. unfold is_absolute_dest. rewrite (wr_scheme r W). reflexivity. Qed.
 
-Theorem navigate_url_refines_rfc b d : wf_base b -> wf_ref d \/ wf_base d ->
-  spec_navigate (to_text b) (to_text d) (to_text (navigate_url b d)) = true.
+Theorem navigate_url_refines_rfc_strict b d : wf_base b -> wf_ref d \/ wf_base d ->
+  spec_navigate_strict (to_text b) (to_text d) (to_text (navigate_url b d)) = true.
 Proof.
   intros Wb [Wd|Wd]; unfold navigate_url.
-  - rewrite (wf_ref_relative d Wd). apply navigate_refines_rfc; assumption.
-  - rewrite (wf_base_absolute d Wd). apply navigate_abs_refines_rfc; assumption.
+  - rewrite (wf_ref_relative d Wd). apply navigate_refines_rfc_strict; assumption.
+  - rewrite (wf_base_absolute d Wd). apply navigate_abs_refines_rfc_strict; assumption.
 Qed.
+
+Theorem navigate_url_refines_rfc b d : wf_base b -> wf_ref d \/ wf_base d ->
+  spec_navigate (to_text b) (to_text d) (to_text (navigate_url b d)) = true.
+Proof. intros Wb Wd. apply strict_implies, navigate_url_refines_rfc_strict; assumption. Qed.
 
 Theorem navigate_url_wf b d : wf_base b -> wf_ref d \/ wf_base d -> wf_base (navigate_url b d).
 Proof.
@@ -557,6 +575,7 @@ Proof.
   - exact (wb_host_ne u W).
   - exact (wb_host_lower u W).
   - exact (wb_auth_chars u W).
+  - exact (wb_auth_lower u W).
   - eexists; reflexivity.
   - repeat constructor.
   - exact (wb_query u W).
